@@ -11,6 +11,11 @@ Fails(c) ==
   \* the same shuffle with metadata removed from a random subset of rows (ragged metadata column): whole rows permuted, same order
   \cup (IF c.ragged_ok = 1 THEN {} ELSE {"sort_with_ragged_metadata_not_a_row_permutation"})
   \cup (IF c.canon_skip = 1 \/ c.canon_same = 1 THEN {} ELSE {"canonicalise_depends_on_row_order"})
+  \* build_index() on a collection that still carries the index of another (equally valid) row order
+  \cup (IF c.reindex.skip = 1 THEN {} ELSE
+        {cl \in {"build_index_kept_a_stale_index", "reindexed_collection_does_not_load"} :
+          ~ CASE cl = "build_index_kept_a_stale_index" -> IndexFresh(c.reindex.ts, c.reindex.ins, c.reindex.rem)
+              [] cl = "reindexed_collection_does_not_load" -> c.reindex.loads = 1})
   \cup (IF c.repair_skip = 1 THEN {} ELSE
         LET o == c.orig r == c.repaired IN
         {cl \in {"repaired_loads", "same_trees", "same_genotypes", "mutation_parents", "sites_unique"} :
